@@ -151,18 +151,26 @@ func (b *c17RBus) Close() error                                         { return
 
 type c17RMixed struct{}
 
-func (c17RMixed) IsMixedAccessSVLAN(svlan uint16) bool { return svlan == 100 }
+func (c17RMixed) IsMixedAccessSVLAN(svlan uint16) bool { return svlan == 100 || svlan == 101 }
 
 type c17RTuple struct {
 	mac net.HardwareAddr
 	cvl uint16
+	svl uint16
 }
 
+// same ten tuples as the e2e harness: t0 base, t1 MAC[5], t2 C-VLAN, t3 C-VLAN 0 + MAC[5], t4 S-VLAN, t5..t9 MAC[0]..MAC[4]
 var c17RTuples = []c17RTuple{
-	{net.HardwareAddr{0x02, 0xaa, 0xbb, 0xcc, 0x00, 0x01}, 10},
-	{net.HardwareAddr{0x02, 0xaa, 0xbb, 0xcc, 0x00, 0x11}, 10},
-	{net.HardwareAddr{0x02, 0xaa, 0xbb, 0xcc, 0x00, 0x01}, 11},
-	{net.HardwareAddr{0x02, 0xaa, 0xbb, 0xcc, 0x00, 0x02}, 0},
+	{net.HardwareAddr{0x02, 0xaa, 0xbb, 0xcc, 0x00, 0x01}, 10, 100},
+	{net.HardwareAddr{0x02, 0xaa, 0xbb, 0xcc, 0x00, 0x11}, 10, 100},
+	{net.HardwareAddr{0x02, 0xaa, 0xbb, 0xcc, 0x00, 0x01}, 11, 100},
+	{net.HardwareAddr{0x02, 0xaa, 0xbb, 0xcc, 0x00, 0x02}, 0, 100},
+	{net.HardwareAddr{0x02, 0xaa, 0xbb, 0xcc, 0x00, 0x01}, 10, 101},
+	{net.HardwareAddr{0x06, 0xaa, 0xbb, 0xcc, 0x00, 0x01}, 10, 100},
+	{net.HardwareAddr{0x02, 0xab, 0xbb, 0xcc, 0x00, 0x01}, 10, 100},
+	{net.HardwareAddr{0x02, 0xaa, 0xba, 0xcc, 0x00, 0x01}, 10, 100},
+	{net.HardwareAddr{0x02, 0xaa, 0xbb, 0xcd, 0x00, 0x01}, 10, 100},
+	{net.HardwareAddr{0x02, 0xaa, 0xbb, 0xcc, 0x01, 0x01}, 10, 100},
 }
 
 type c17RWorld struct {
@@ -176,7 +184,7 @@ type c17RWorld struct {
 }
 
 func (w *c17RWorld) tk(t int) session.TupleKey {
-	return session.MakeTupleKey(100, c17RTuples[t].cvl, c17RTuples[t].mac)
+	return session.MakeTupleKey(c17RTuples[t].svl, c17RTuples[t].cvl, c17RTuples[t].mac)
 }
 
 func (w *c17RWorld) boot() {
@@ -188,7 +196,7 @@ func (w *c17RWorld) boot() {
 	ifMgr.Add(&ifmgr.Interface{SwIfIndex: 2, Name: "TenGigE0/0", Type: ifmgr.IfTypeHardware, MAC: []byte{0x52, 0x54, 0x00, 0x11, 0x22, 0x33}})
 	cfg := &config.Config{
 		SubscriberGroups: &subscriber.SubscriberGroupsConfig{Groups: map[string]*subscriber.SubscriberGroup{
-			"grp": {IPv4Profile: "v4", AAAPolicy: "p1", VLANs: []subscriber.VLANRange{{SVLAN: "100"}}},
+			"grp": {IPv4Profile: "v4", AAAPolicy: "p1", VLANs: []subscriber.VLANRange{{SVLAN: "100-101"}}},
 		}},
 		AAA: aaacfg.AAAConfig{Policy: []aaacfg.AAAPolicy{{Name: "p1", Type: aaacfg.PolicyTypeDHCP, Format: "$mac-address$"}}},
 	}
@@ -229,7 +237,7 @@ func (w *c17RWorld) otherClaim(t int, sid string) {
 }
 
 func (w *c17RWorld) mine(t int) *SessionState {
-	if v, ok := w.c.sessions.Load(w.c.makeSessionKeyV4(c17RTuples[t].mac, 100, c17RTuples[t].cvl)); ok {
+	if v, ok := w.c.sessions.Load(w.c.makeSessionKeyV4(c17RTuples[t].mac, c17RTuples[t].svl, c17RTuples[t].cvl)); ok {
 		return v.(*SessionState)
 	}
 	return nil
@@ -253,7 +261,7 @@ func (w *c17RWorld) snapshot(first int) string {
 		ni := 0
 		w.c.sessionIndex.Range(func(_, v any) bool {
 			s := v.(*SessionState)
-			if s.MAC.String() == c17RTuples[t].mac.String() && s.OuterVLAN == 100 && s.InnerVLAN == c17RTuples[t].cvl {
+			if s.MAC.String() == c17RTuples[t].mac.String() && s.OuterVLAN == c17RTuples[t].svl && s.InnerVLAN == c17RTuples[t].cvl {
 				ni++
 			}
 			return true
@@ -280,7 +288,9 @@ func (w *c17RWorld) snapshot(first int) string {
 	parts := []string{one(first)}
 	for t := range c17RTuples {
 		if t != first {
-			parts = append(parts, one(t))
+			if s := one(t); !strings.HasSuffix(s, ":i0p0:-") {
+				parts = append(parts, s)
+			}
 		}
 	}
 	return strings.Join(parts, ",")
@@ -308,7 +318,7 @@ func c17RRun(f []string) (out string) {
 			before := w.mine(t)
 			dh := &layers.DHCPv4{Operation: layers.DHCPOpRequest, HardwareType: layers.LinkTypeEthernet, HardwareLen: 6, Xid: 0x1234,
 				ClientHWAddr: tp.mac, Options: layers.DHCPOptions{layers.NewDHCPOption(layers.DHCPOptMessageType, []byte{byte(layers.DHCPMsgTypeDiscover)})}}
-			_ = w.c.handleDiscover(&dataplane.ParsedPacket{MAC: tp.mac, OuterVLAN: 100, InnerVLAN: tp.cvl, SwIfIndex: 10, DHCPv4: dh})
+			_ = w.c.handleDiscover(&dataplane.ParsedPacket{MAC: tp.mac, OuterVLAN: tp.svl, InnerVLAN: tp.cvl, SwIfIndex: 10, DHCPv4: dh})
 			w.bus.drain()
 			if sess := w.mine(t); sess != nil && sess != before {
 				// what the AAA answer and the dataplane callback make of a new session
@@ -333,7 +343,7 @@ func c17RRun(f []string) (out string) {
 				tp := c17RTuples[t]
 				w.n++
 				sid := fmt.Sprintf("ha-%d", w.n)
-				cp := &hapb.SessionCheckpoint{SessionId: sid, SrgName: "grp", Mac: tp.mac, OuterVlan: 100, InnerVlan: uint32(tp.cvl),
+				cp := &hapb.SessionCheckpoint{SessionId: sid, SrgName: "grp", Mac: tp.mac, OuterVlan: uint32(tp.svl), InnerVlan: uint32(tp.cvl),
 					AaaSessionId: sid, Ipv4Address: net.IPv4(10, 1, byte(t), byte(w.n)).To4(), Ipv4LeaseTime: 3600, BoundAtNs: time.Now().UnixNano()}
 				data, err := proto.Marshal(cp)
 				if err != nil {
